@@ -668,7 +668,11 @@ func backSlice(v ssa.Value, opt SliceOpts) []ssa.Value {
 					}
 				}
 			}
-		case *ssa.MakeSlice, *ssa.MakeMap, *ssa.MakeChan, *ssa.Const, *ssa.Parameter, *ssa.Global, *ssa.Function, *ssa.MakeClosure, *ssa.Next, *ssa.Range, *ssa.Select:
+		case *ssa.Next:
+			walk(x.Iter, d+1)
+		case *ssa.Range:
+			walk(x.X, d+1)
+		case *ssa.MakeSlice, *ssa.MakeMap, *ssa.MakeChan, *ssa.Const, *ssa.Parameter, *ssa.Global, *ssa.Function, *ssa.MakeClosure, *ssa.Select:
 		}
 	}
 	walk(v, 0)
@@ -690,6 +694,24 @@ func loadSources(load *ssa.UnOp, f func(ssa.Value)) {
 			f(st.Val)
 		}
 	case *ssa.FieldAddr:
+		// whole-struct assignments to the variable the field belongs to (e.g. `mapping := elem` then mapping.F)
+		{
+			var base ssa.Value = a
+			for i := 0; i < 4; i++ {
+				fa, ok := base.(*ssa.FieldAddr)
+				if !ok {
+					break
+				}
+				base = fam.canon(fa.X)
+			}
+			if al, ok := base.(*ssa.Alloc); ok {
+				for _, st := range fam.stores[al] {
+					if st.Parent() != load.Parent() || instrReaches(st, load) {
+						f(st.Val)
+					}
+				}
+			}
+		}
 		// stores to the same access path (handles nested value-struct fields such as ev.ReplicateParam.Database);
 		// only stores that can execute before the load count
 		if theWorld != nil {
@@ -869,6 +891,14 @@ func (w *World) accessPathD(v ssa.Value, d int) string {
 	case *ssa.TypeAssert:
 		return w.accessPathD(x.X, d+1)
 	case *ssa.Extract:
+		if nx, ok := x.Tuple.(*ssa.Next); ok {
+			if rg, ok := nx.Iter.(*ssa.Range); ok {
+				if x.Index == 1 {
+					return w.accessPathD(rg.X, d+1) + "[key]"
+				}
+				return w.accessPathD(rg.X, d+1) + "[]"
+			}
+		}
 		return fmt.Sprintf("%s#%d", w.accessPathD(x.Tuple, d+1), x.Index)
 	case *ssa.Call:
 		s := callSym(x.Common())
